@@ -34,6 +34,8 @@ def graph_monitor(run: Any) -> list[Any]:
 def plans(tier: str) -> list[dict[str, Any]]:
     P = trav_plans.plan
     out = [
+        P("lazy setup tests of both variants of vm1 (several objects created in one expansion step)", trav.Scenario("L-customize-variants", "nonleaves..customize", "net1", vm_strs={"vm1": "", "vm2": "only Win10\n", "vm3": "only Ubuntu\n"}, vms="vm1"), [graph_monitor], K=1, statuses=["PASS"]),
+        P("lazy setup test of the permanent vm3", trav.Scenario("L-customize-vm3", "nonleaves..customize", "net1", vms="vm3"), [graph_monitor], K=1, statuses=["PASS"]),
         P("lazy G2 expanded under explored schedules", trav.menu("G2"), [graph_monitor], K=1, statuses=["PASS"]),
         P("lazy G3 expanded under explored schedules", trav.menu("G3"), [graph_monitor], K=1, statuses=["PASS"], pool_fixed=trav.DEEP_PRESENT),
     ]
@@ -167,7 +169,7 @@ def run(ctx: common.Context) -> None:
     for c in collected:
         for what, cls, detail in c.violations:
             ctx.report(cls, what, detail, replay_shape)
-    totals = travcheck.run_plans(ctx, plans(ctx.tier), 90 if not ctx.thorough else 700, replay_trav)
+    totals = travcheck.run_plans(ctx, plans(ctx.tier), 100 if not ctx.thorough else 700, replay_trav)
     ctx.bounds = {"eager_menu": [f"{n} {kw}" for n, kw in EAGER_MENU + (EAGER_THOROUGH if ctx.thorough else [])], "symbolic_shape": {"nodes": _shape["K"], "edges": "every forward edge absent or based on 1 or 2 objects (solver variable)"}, **{p["name"]: p["bounds"] for p in plans(ctx.tier)}}
     ctx.assumptions = ["selections come from a concrete menu of the shipped sample suite (the Cartesian parser cannot be executed on symbolic strings); other selections are outside the claim", "symbolic shape: real nodes of one parsed graph, their parsed edges removed"]
     ctx.coverage["counters"] = totals
